@@ -140,11 +140,8 @@ def insKV {α : Type} (k : List Nat) (v : α) : List (List Nat × α) → List (
 def fromKVs {α : Type} (es : List (List Nat × α)) : List (List Nat × α) :=
   es.foldl (fun acc kv => insKV kv.1 kv.2 acc) []
 
-/-- Strictly increasing keys. -/
-def strictKeys : List Nat → Bool
-  | [] => true
-  | [_] => true
-  | a :: b :: rest => decide (a < b) && strictKeys (b :: rest)
+/-- Strictly increasing keys (`<` is transitive, so pairwise = adjacent). -/
+def strictKeys (l : List Nat) : Bool := decide (l.Pairwise (· < ·))
 
 /-! ## `valid`, `fits`, `WF` -/
 
@@ -168,7 +165,7 @@ def valid : Shape → Val → Bool
   | .struct sized fs, .record sz vs =>
       sz.length == Fixed.sizeList sized && Fixed.validList sized sz && decide (BytesWF sz)
         && validFields fs vs
-  | .enum _ ps, .variant i p => validVariant ps i p
+  | .enum ds ps, .variant i p => decide (i < ds.length) && validVariant ps i p
   | .unit, .unit => true
   | .disc _ inner, v => valid inner v
   | _, _ => false
@@ -211,12 +208,17 @@ end
 
 mutual
 /-- Counts fit their prefixes: `L::from_usize(len).unwrap()` (`list.rs` 435), `u32::try_from(len)`,
-`u32::try_from(unsized_bytes_written)` and the `u32` offsets (`unsized_list.rs` 122, 160–165). -/
+`u32::try_from(unsized_bytes_written)` and the `u32` offsets (`unsized_list.rs` 122, 160–165);
+and the element bytes of a list fit in `usize` (always true of a real `Vec`; `get_ptr` multiplies
+`size_of::<T>() * len` with overflow checks). -/
 def fits : Shape → Val → Bool
-  | .list _ lw, .seq es => decide (es.length < 256 ^ lw)
-  | .set _ lw, .seq es => decide (es.length < 256 ^ lw)
-  | .map _ _ lw, .seq es => decide (es.length < 256 ^ lw)
-  | .str lw, .bytes l => decide (l.length < 256 ^ lw)
+  | .list e lw, .seq es =>
+      decide (es.length < 256 ^ lw) && decide (e.size * es.length < Shape.usizeLim)
+  | .set e lw, .seq es =>
+      decide (es.length < 256 ^ lw) && decide (e.size * es.length < Shape.usizeLim)
+  | .map kw v lw, .seq es =>
+      decide (es.length < 256 ^ lw) && decide ((kw + v.size) * es.length < Shape.usizeLim)
+  | .str lw, .bytes l => decide (l.length < 256 ^ lw) && decide (1 * l.length < Shape.usizeLim)
   | .ulist e, .useq vs =>
       decide (vs.length < Shape.u32Lim) && decide ((vs.map (size e)).sum < Shape.u32Lim)
         && vs.all (fits e)
@@ -687,8 +689,8 @@ def initOk : Shape → Init → Bool
   | .struct _ fs, .default => initOkDefault fs
   | .struct sized fs, .fields sz is =>
       (if sized.isEmpty then true else initOkFixed (.record sized) sz) && initOkFields fs is
-  | .enum _ ps, .default => (match ps with | p :: _ => initOk p .default | [] => false)
-  | .enum _ ps, .variant i a => initOkVariant ps i a
+  | .enum ds ps, .default => (match ds, ps with | _ :: _, p :: _ => initOk p .default | _, _ => false)
+  | .enum ds ps, .variant i a => decide (i < ds.length) && initOkVariant ps i a
   | .unit, .default => true
   | .disc _ inner, a => initOk inner a
   | _, _ => false
